@@ -140,9 +140,15 @@ Fixpoint rb (e : expr) : option rad :=
 
 (* accepted = non-interfering inside the mask *)
 Definition accepts (e : expr) : bool := match rb e with Some r => rle r 0 | None => false end.
-(* syntactic shape `result[~mask] = image[~mask]` as the last write *)
-Definition restores_outside (e : expr) : bool :=
-  match e with Select _ MaskE Img => true | _ => false end.
+(* the last write on every path is `result[~mask] = image[~mask]` (or the path returns the image itself);
+   paths are joined by Select on a branch condition *)
+Fixpoint restores_outside (e : expr) : bool :=
+  match e with
+  | Img => true
+  | Select e1 m e2 =>
+      (match m, e2 with MaskE, Img => true | _, _ => false end) || (restores_outside e1 && restores_outside e2)
+  | _ => false
+  end.
 
 (* the two properties of C12, for EVERY admissible interpretation of the library symbols *)
 Definition noninterfering (e : expr) : Prop :=
